@@ -1,3 +1,8 @@
+"""How the sub-agents that write seeded changes are briefed: one prompt per property (its text only), a scratch worktree each.
+usage: seed_prompts.py <round>  -> /tmp/seed/prompt<round>-<PID>.txt; the agents deliver /tmp/seed/out<round>-<PID>/m<i>.diff, m<i>_demo.py,
+m<i>.md (confirmed and filed with `SEED_OUT=out<round> tools/intake.sh <PID> m<i> <seed-id> "<needs>"`)."""
+import sys
+ROUND = sys.argv[1] if len(sys.argv) > 1 else "X"
 import json, os, subprocess
 used = {}
 for d in sorted(os.listdir('/verif/seeded')):
@@ -6,7 +11,7 @@ for d in sorted(os.listdir('/verif/seeded')):
         used.setdefault(p, []).append(m.replace('-', ' '))
 for l in open('/verif/properties.jsonl'):
     p = json.loads(l); pid = p['id']
-    wt = f'/tmp/seed/wt-{pid}'; out = f'/tmp/seed/out<round>-{pid}'
+    wt = f'/tmp/seed/wt-{pid}'; out = f'/tmp/seed/out{ROUND}-{pid}'
     os.makedirs(out, exist_ok=True)
     if not os.path.isdir(wt):
         subprocess.check_call(['git', '-C', '/repo', 'worktree', 'add', '--detach', '-q', wt, 'HEAD'])
@@ -66,5 +71,5 @@ Before you finish, verify for each change yourself: demo exits 0 on clean tree; 
 result line unchanged with the change. Then restore the worktree to clean (`git checkout -- .`, `git clean -fdq`).
 Your final message: for each of m1/m2 one paragraph (site, mechanism, trigger) plus the verification results you observed.
 """
-    open(f'/tmp/seed/prompt<round>-{pid}.txt', 'w').write(txt)
+    open(f'/tmp/seed/prompt{ROUND}-{pid}.txt', 'w').write(txt)
 print('ok')
